@@ -638,4 +638,135 @@ theorem put_of_no_overlap (st : State) (t : Tab) (h : nrOverlaps st t.addr t.siz
   rw [List.filter_eq_nil_iff] at this
   simpa [Tab.stop] using this u hu
 
+/-! ## a syntactic sufficient condition for `stable` -/
+
+def dmaTids : List Cmd → List Nat
+  | [] => []
+  | .lutDma _ t :: rest => t :: dmaTids rest
+  | _ :: rest => dmaTids rest
+
+def dmaPids : List Cmd → List Nat
+  | [] => []
+  | .lutDma p _ :: rest => p :: dmaPids rest
+  | _ :: rest => dmaPids rest
+
+theorem step_env_keys {c : Ctx} {s s' : PS} {cmd : Cmd} {a : Act} (hs : step c s cmd = .ok (s', a)) :
+    s'.env.addr.map Prod.fst = (dmaTids [cmd]).reverse ++ s.env.addr.map Prod.fst ∧
+    s'.env.idx.map Prod.fst = (dmaPids [cmd]).reverse ++ s.env.idx.map Prod.fst := by
+  cases cmd with
+  | other => simp only [step] at hs; injection hs with hs; injection hs with h1 _; subst h1; simp [dmaTids, dmaPids]
+  | stripe p =>
+    simp only [step] at hs
+    split at hs <;> (injection hs with hs; injection hs with h1 _; subst h1; simp [dmaTids, dmaPids])
+  | lutDma p t =>
+    simp only [step] at hs
+    split at hs
+    · injection hs with hs; injection hs with h1 _; subst h1; simp [dmaTids, dmaPids]
+    · split at hs
+      · cases hs
+      · injection hs with hs; injection hs with h1 _; subst h1; simp [dmaTids, dmaPids]
+
+theorem dmaTids_cons (cmd : Cmd) (rest : List Cmd) : dmaTids (cmd :: rest) = dmaTids [cmd] ++ dmaTids rest := by
+  cases cmd <;> simp [dmaTids]
+
+theorem dmaPids_cons (cmd : Cmd) (rest : List Cmd) : dmaPids (cmd :: rest) = dmaPids [cmd] ++ dmaPids rest := by
+  cases cmd <;> simp [dmaPids]
+
+theorem run_env_keys {c : Ctx} : ∀ (cmds : List Cmd) (s sf : PS) (acts : List Act), run c s cmds = .ok (acts, sf) →
+    sf.env.addr.map Prod.fst = (dmaTids cmds).reverse ++ s.env.addr.map Prod.fst ∧
+    sf.env.idx.map Prod.fst = (dmaPids cmds).reverse ++ s.env.idx.map Prod.fst := by
+  intro cmds
+  induction cmds with
+  | nil => intro s sf acts hr; simp only [run] at hr; injection hr with hr; injection hr with _ h2; subst h2; simp [dmaTids, dmaPids]
+  | cons cmd rest ih =>
+    intro s sf acts hr
+    simp only [run] at hr
+    split at hr
+    · cases hr
+    · rename_i s' a hs
+      split at hr
+      · cases hr
+      · rename_i as sf' hrest
+        injection hr with hr; injection hr with _ h2; subst h2
+        obtain ⟨k1, k2⟩ := step_env_keys hs
+        obtain ⟨j1, j2⟩ := ih s' _ as hrest
+        rw [j1, j2, k1, k2, dmaTids_cons cmd rest, dmaPids_cons cmd rest]
+        simp [List.reverse_append, List.append_assoc]
+
+theorem lookup_of_nodup_keys : ∀ (l : List (Nat × Nat)), (l.map Prod.fst).Nodup → ∀ e ∈ l, lookup l e.1 = some e.2 := by
+  intro l
+  induction l with
+  | nil => intro _ e he; cases he
+  | cons x l ih =>
+    intro hn e he
+    simp only [List.map_cons, List.nodup_cons] at hn
+    rcases List.mem_cons.1 he with rfl | he'
+    · simp [lookup]
+    · have hne : x.1 ≠ e.1 := fun h => hn.1 (by rw [h]; exact List.mem_map_of_mem he')
+      have := ih hn.2 e he'
+      simp only [lookup, List.find?_cons] at this ⊢
+      rw [show (x.1 == e.1) = false by simpa using hne]
+      exact this
+
+theorem nodup_reverse' {l : List Nat} (h : l.Nodup) : l.reverse.Nodup := by
+  unfold List.Nodup at *
+  rw [List.pairwise_reverse]
+  exact h.imp fun h => h.symm
+
+/-- if no tensor object and no pass occurs in two table DMAs of the stream, nothing is reassigned -/
+theorem stable_of_nodup {c : Ctx} {cmds : List Cmd} {acts : List Act} {sf : PS} (hr : optimize c cmds = .ok (acts, sf))
+    (ht : (dmaTids cmds).Nodup) (hp : (dmaPids cmds).Nodup) : stable sf.env = true := by
+  obtain ⟨k1, k2⟩ := run_env_keys cmds {} sf acts hr
+  simp only [List.map_nil, List.append_nil] at k1 k2
+  have h1 : (sf.env.addr.map Prod.fst).Nodup := by rw [k1]; exact nodup_reverse' ht
+  have h2 : (sf.env.idx.map Prod.fst).Nodup := by rw [k2]; exact nodup_reverse' hp
+  simp only [stable, Bool.and_eq_true, List.all_eq_true, beq_iff_eq]
+  exact ⟨fun e he => lookup_of_nodup_keys _ h1 e he, fun e he => lookup_of_nodup_keys _ h2 e he⟩
+
+/-! ## the list checker of the Spec -/
+
+theorem shareByte_false {a b : Nat × Nat × Nat} (h : shareByte a b = false) :
+    ∀ x, ¬ ((a.2.1 ≤ x ∧ x < a.2.1 + a.2.2) ∧ (b.2.1 ≤ x ∧ x < b.2.1 + b.2.2)) := by
+  intro x
+  simp only [shareByte, decide_eq_false_iff_not] at h
+  omega
+
+theorem tablesOverlap_none : ∀ (l : List (Nat × Nat × Nat)), tablesOverlap l = none →
+    l.Pairwise fun a b => ∀ x, ¬ ((a.2.1 ≤ x ∧ x < a.2.1 + a.2.2) ∧ (b.2.1 ≤ x ∧ x < b.2.1 + b.2.2)) := by
+  intro l
+  induction l with
+  | nil => intro _; exact List.Pairwise.nil
+  | cons t rest ih =>
+    intro h
+    simp only [tablesOverlap] at h
+    split at h
+    · cases h
+    · rename_i hf
+      refine List.Pairwise.cons ?_ (ih h)
+      intro u hu
+      have := List.find?_eq_none.1 hf u hu
+      exact shareByte_false (by simpa using this)
+
+theorem problemsFrom_nil_iff (g : Geom) : ∀ (evs : List Ev) (i : Nat) (w : Window),
+    problemsFrom g i w evs = [] ↔ streamOkB g w evs = true := by
+  intro evs
+  induction evs with
+  | nil => intro i w; simp [problemsFrom, streamOkB]
+  | cons e es ih =>
+    intro i w
+    simp only [problemsFrom, streamOkB, List.append_eq_nil_iff, Bool.and_eq_true, ih]
+    constructor
+    · rintro ⟨h1, h2⟩
+      refine ⟨?_, h2⟩
+      by_cases hb : evOkB g w e = true
+      · exact hb
+      · exfalso
+        simp only [hb, Bool.false_eq_true, if_false] at h1
+        cases e <;> simp_all [evOkB]
+    · rintro ⟨h1, h2⟩
+      exact ⟨by simp [h1], h2⟩
+
+theorem problems_nil_iff (g : Geom) (evs : List Ev) : problems g evs = [] ↔ streamOkB g Window.empty evs = true :=
+  problemsFrom_nil_iff g evs 0 Window.empty
+
 end VelaVerif.Lemmas.LutState
